@@ -5,7 +5,13 @@
 (* a HET/BET source and the underflowing skipped count.                                           *)
 EXTENDS Rebuild, Sequences
 MFiles == {"plain", "secret", "(signature)", "empty", "(listfile)"}
-MTok   == [f \in MFiles |-> "t:" \o f]
+\* round 4: a source whose (listfile) names neither itself nor (attributes) nor one ordinary file (MC_Rebuild_noself.cfg,
+\* and the must-refute configurations _codeC / _codeD / _codeE)
+MListedNoSelf == {"plain", "secret", "(signature)", "empty"}
+MUnlisted     == {"(listfile)", "(attributes)", "hidden"}
+MTok   == [f \in MFiles \cup MUnlisted |-> "t:" \o f]
 DesignSpec == RInit /\ [][DesignNext]_rvars /\ WF_rvars(DesignNext)
 CodeSpec   == RInit /\ [][CodeNext]_rvars
+HeadSpec   == RInit /\ [][HeadNext]_rvars
+NoLfSpec   == RInit /\ [][NoLfNext]_rvars
 =============================================================================
